@@ -462,4 +462,187 @@ theorem inv_run {ks} (hL : P.sxor.Law ks) {m pad data : Bytes} (hG : Genuine m p
       simp only [runEvs, List.foldl_cons]
       exact ih _ F (inv_read P hL hG max h)
 
+/-! ## bounded receive buffer along every history (C10) -/
+
+def ReadRes.conn : ReadRes → Conn
+  | .data c _ _ => c
+  | .block c _ => c
+  | .fail c _ _ => c
+
+/-- the buffer invariant: below two windows always, below one while the scan is still running -/
+def BufOk (c : Conn) : Prop :=
+  (c.rxBuf.getD []).length < 2 * window ∧ c.peak < 2 * window ∧
+  (c.rxMagic ≠ none → c.closed = false → (c.rxBuf.getD []).length < window)
+
+theorem readData_conn (c : Conn) (max : Nat) (q : Net) :
+    ((readData P c max q).conn.rxBuf.getD []).length ≤ (c.rxBuf.getD []).length ∧
+    (readData P c max q).conn.peak = c.peak ∧ (readData P c max q).conn.rxMagic = c.rxMagic := by
+  have net : ((readNet P c max q).conn.rxBuf.getD []).length ≤ (c.rxBuf.getD []).length ∧
+      (readNet P c max q).conn.peak = c.peak ∧ (readNet P c max q).conn.rxMagic = c.rxMagic := by
+    unfold readNet
+    split <;> simp [ReadRes.conn]
+  unfold readData
+  cases hb : c.rxBuf with
+  | none => simp only; rw [hb] at net; exact net
+  | some buf =>
+    cases buf with
+    | nil => simp only; rw [hb] at net; exact net
+    | cons b bs =>
+      simp only [readBuf, ReadRes.conn, Option.getD_some, List.length_drop, and_self, and_true]
+      omega
+
+theorem bufOk_read {c : Conn} (h : BufOk c) (max : Nat) (q : Net) : BufOk (read P c max q).conn := by
+  obtain ⟨h1, h2, h3⟩ := h
+  unfold read
+  by_cases hcl : c.closed = true
+  · simp only [hcl, ↓reduceIte, ReadRes.conn]; exact ⟨h1, h2, h3⟩
+  · have hcl' : c.closed = false := by simpa using hcl
+    simp only [hcl', Bool.false_eq_true, ↓reduceIte]
+    cases hm : c.rxMagic with
+    | none =>
+      simp only
+      obtain ⟨r1, r2, r3⟩ := readData_conn P c max q
+      refine ⟨by omega, by omega, fun hne => ?_⟩
+      rw [r3, hm] at hne; exact absurd rfl hne
+    | some m =>
+      simp only
+      have hb := h3 (by simp [hm]) hcl'
+      obtain ⟨s1, s2⟩ := scan_buf_bound m (q.size + 1) (c.rxBuf.getD []) q hb
+      cases hs : findPeerMagic m (q.size + 1) (c.rxBuf.getD []) q with
+      | block b q' =>
+        have := s2 b q' hs
+        simp only [ReadRes.conn, BufOk, Option.getD_some]
+        refine ⟨by omega, Nat.max_lt.mpr ⟨h2, by omega⟩, fun _ _ => this⟩
+      | fail e b q' =>
+        rw [hs] at s1
+        simp only [ScanRes.buf] at s1
+        simp only [ReadRes.conn, BufOk, Option.getD_some]
+        refine ⟨s1, Nat.max_lt.mpr ⟨h2, s1⟩, fun _ hc => by simp at hc⟩
+      | found b pos q' =>
+        rw [hs] at s1
+        simp only [ScanRes.buf] at s1
+        simp only
+        obtain ⟨r1, r2, r3⟩ := readData_conn P { c with rxMagic := none, rxBuf := some (b.drop (pos + m.length)), peak := Nat.max c.peak b.length, closed := false } max q'
+        simp only [Option.getD_some, List.length_drop] at r1
+        refine ⟨by omega, ?_, fun hne => ?_⟩
+        · rw [r2]; exact Nat.max_lt.mpr ⟨h2, s1⟩
+        · rw [r3] at hne; exact absurd rfl hne
+
+theorem bufOk_run {s : Run} (h : BufOk s.c) (evs : List Ev) : BufOk (runEvs P s evs).c := by
+  induction evs generalizing s with
+  | nil => exact h
+  | cons ev evs ih =>
+    simp only [runEvs, List.foldl_cons]
+    apply ih
+    cases ev with
+    | arrive ch => exact h
+    | read max =>
+      simp only [stepEv]
+      cases hf : s.failed with
+      | some e => exact h
+      | none =>
+        simp only
+        have := bufOk_read P h max s.q
+        cases hr : read P s.c max s.q <;> simpa [Run.afterRead, hr, ReadRes.conn] using this
+
+/-! ## rejection along every history -/
+
+/-- no magic at an offset `≤ maxPadding` in buffer ‖ queue ‖ future: the scan blocks (window not
+full) or fails — it never finds anything -/
+theorem scan_nomagic (m : Bytes) (hne : m ≠ []) : ∀ (fuel : Nat) (buf : Bytes) (q : Net) (F : Bytes),
+    (∀ ch ∈ q, ch ≠ []) → q.size < fuel → buf.length < window →
+    (∀ p ≤ maxPadding, ¬ m <+: (buf ++ q.flatten ++ F).drop p) →
+    (∃ b, findPeerMagic m fuel buf q = .block b [] ∧ b = buf ++ q.flatten ∧ b.length < window) ∨
+    (∃ e b q', findPeerMagic m fuel buf q = .fail e b q' ∧ (e = .noMagic ∨ e = .tooMuchPadding)) := by
+  intro fuel
+  induction fuel with
+  | zero => intro buf q F _ hsz; omega
+  | succ fuel ih =>
+    intro buf q F hq hsz hb hno
+    unfold findPeerMagic
+    cases hr : Net.read window q with
+    | none =>
+      have : q = [] := Net.read_eq_none.mp hr
+      subst this
+      left; exact ⟨buf, rfl, by simp, hb⟩
+    | some r =>
+      obtain ⟨chunk, q'⟩ := r
+      obtain ⟨_, hsz', hq'⟩ := Net.read_props window_pos hq hr
+      have hfl := Net.read_flatten hr
+      have hcat : buf ++ q.flatten ++ F = (buf ++ chunk) ++ (q'.flatten ++ F) := by
+        rw [← hfl]; simp [List.append_assoc]
+      simp only
+      cases hi : indexOf m (buf ++ chunk) with
+      | none =>
+        simp only
+        by_cases hw : (buf ++ chunk).length ≥ window
+        · simp only [hw, ↓reduceIte]; right; exact ⟨_, _, _, rfl, Or.inl rfl⟩
+        · simp only [hw, ↓reduceIte]
+          rcases ih (buf ++ chunk) q' F hq' (by omega) (by omega)
+              (by rw [List.append_assoc, ← hcat]; exact hno) with ⟨b, h1, h2, h3⟩ | h
+          · left; exact ⟨b, h1, by rw [h2, ← hfl]; simp [List.append_assoc], h3⟩
+          · right; exact h
+      | some pos =>
+        simp only
+        by_cases hp : pos > maxPadding
+        · simp only [hp, ↓reduceIte]; right; exact ⟨_, _, _, rfl, Or.inr rfl⟩
+        · exfalso
+          have hocc := ((indexOf_eq_some m hne _ _).mp hi).1
+          have hl : m.length ≤ ((buf ++ chunk).drop pos).length := hocc.length_le
+          rw [List.length_drop] at hl
+          have hml0 : 0 < m.length := List.length_pos_iff.mpr hne
+          have := prefix_drop_mono m (buf ++ chunk) (q'.flatten ++ F) pos hocc (by omega)
+          rw [← hcat] at this
+          exact hno pos (by omega) this
+
+/-- invariant of a receiving side on a stream `W` without a magic inside the window -/
+def RejInv (m W : Bytes) (s : Run) (F : Bytes) : Prop :=
+  s.outs = [] ∧
+  ((s.failed = none ∧ s.c.closed = false ∧ s.c.rxMagic = some m ∧ (∀ ch ∈ s.q, ch ≠ []) ∧
+      ∃ buf, s.c.rxBuf = some buf ∧ buf ++ s.q.flatten ++ F = W ∧ buf.length < window) ∨
+   (∃ e, s.failed = some e ∧ (e = .noMagic ∨ e = .tooMuchPadding) ∧ s.c.closed = true))
+
+theorem rejInv_step {m W : Bytes} (hne : m ≠ [])
+    (hno : ∀ p ≤ maxPadding, ¬ m <+: W.drop p) {s : Run} {F : Bytes} (ev : Ev)
+    (h : RejInv m W s (arrivals [ev] ++ F)) : RejInv m W (stepEv P s ev) F := by
+  obtain ⟨ho, h⟩ := h
+  cases ev with
+  | arrive ch =>
+    simp only [arrivals, List.append_nil] at h
+    refine ⟨ho, ?_⟩
+    rcases h with ⟨h1, h2, h3, h4, buf, h5, h6, h7⟩ | h
+    · left
+      refine ⟨h1, h2, h3, Net.push_nonempty h4 ch, buf, h5, ?_, h7⟩
+      simp only [stepEv, Net.push_flatten]
+      rw [← h6]; simp [List.append_assoc]
+    · right; exact h
+  | read max =>
+    simp only [arrivals, List.nil_append] at h
+    rcases h with ⟨h1, h2, h3, h4, buf, h5, h6, h7⟩ | ⟨e, h1, h2, h3⟩
+    · simp only [stepEv, h1, read, h2, Bool.false_eq_true, ↓reduceIte, h3, h5, Option.getD_some]
+      rcases scan_nomagic m hne (s.q.size + 1) buf s.q F h4 (Nat.lt_succ_self _) h7
+          (by rw [h6]; exact hno) with ⟨b, e1, e2, e3⟩ | ⟨e, b, q', e1, e2⟩
+      · simp only [e1, Run.afterRead]
+        refine ⟨ho, Or.inl ⟨h1, rfl, rfl, by simp, b, rfl, ?_, e3⟩⟩
+        simp only [List.flatten_nil, List.append_nil]
+        rw [e2]; exact h6
+      · simp only [e1, Run.afterRead]
+        exact ⟨ho, Or.inr ⟨e, rfl, e2, rfl⟩⟩
+    · simp only [stepEv, h1]
+      exact ⟨ho, Or.inr ⟨e, h1, h2, h3⟩⟩
+
+theorem rejInv_run {m W : Bytes} (hne : m ≠ []) (hno : ∀ p ≤ maxPadding, ¬ m <+: W.drop p)
+    (evs : List Ev) : ∀ (s : Run) (F : Bytes),
+      RejInv m W s (arrivals evs ++ F) → RejInv m W (runEvs P s evs) F := by
+  induction evs with
+  | nil => intro s F h; simpa [arrivals, runEvs] using h
+  | cons ev evs ih =>
+    intro s F h
+    simp only [runEvs, List.foldl_cons]
+    apply ih
+    apply rejInv_step P hne hno ev
+    cases ev with
+    | arrive ch => simpa [arrivals, List.append_assoc] using h
+    | read max => simpa [arrivals] using h
+
 end O4.Obfs3
